@@ -188,7 +188,13 @@ func RunCase(c Case) (obs []StepObs, slow bool) {
 		if sc.Init == 'a' {
 			init = "active"
 		}
-		ss = append(ss, &liveSess{cfg: sc, peer: vp, fsm: vp.NewFSM(init), addr: pc.PeerAddress})
+		var f *server.VerifFSM
+		if sc.Init == 'r' {
+			f = vp.NewFSMRealReceiver("idle")
+		} else {
+			f = vp.NewFSM(init)
+		}
+		ss = append(ss, &liveSess{cfg: sc, peer: vp, fsm: f, addr: pc.PeerAddress})
 	}
 	for _, e := range c.Evs {
 		s := ss[e.Sid]
@@ -209,6 +215,8 @@ func RunCase(c Case) (obs []StepObs, slow bool) {
 			he = server.VerifFSMEvent{Kind: "connect-retry-timer"}
 		case "brk":
 			he = server.VerifFSMEvent{Kind: "break-conn"}
+		case "pc":
+			he = server.VerifFSMEvent{Kind: "peer-close"}
 		case "ri", "re":
 			func() {
 				defer func() {
@@ -319,8 +327,11 @@ func RunCaseStable(c Case) ([]StepObs, bool) {
 		obs, slow := RunCase(c)
 		if wedged(obs) {
 			// a handler that does not return makes the case slow by itself; confirm it once and report it
+			// (twice: on a loaded machine a reaction may once take longer than the watchdog allows)
 			if obs2, _ := RunCase(c); wedged(obs2) {
-				return obs2, true
+				if obs3, _ := RunCase(c); wedged(obs3) {
+					return obs3, true
+				}
 			}
 			continue
 		}
